@@ -494,7 +494,13 @@ fn run_step(
                 }
                 "render_str" => {
                     let s = step["src"].as_str().unwrap();
-                    if use_to { t.render_str_to(s, &ctx, auto, &mut w).map(|_| None) } else { t.render_str(s, &ctx, auto).map(Some) }
+                    if step.get("one_off").and_then(|x| x.as_bool()).unwrap_or(false) {
+                        Tera::one_off(s, &ctx, auto).map(Some)
+                    } else if use_to {
+                        t.render_str_to(s, &ctx, auto, &mut w).map(|_| None)
+                    } else {
+                        t.render_str(s, &ctx, auto).map(Some)
+                    }
                 }
                 _ => {
                     let n = step["name"].as_str().unwrap();
